@@ -217,7 +217,12 @@ func forNud(p *parser, t *token) *token {
 		return t
 	}
 
-	first := p.Expression(0, "{")
+	// any clause of "for init; cond; post {" may be left out; a clause that is not
+	// there is the empty statement "~", as in the "for {" and "for cond {" forms
+	first := symAtPos(t.Pos, "~")
+	if p.Token.Symbol != ";" {
+		first = p.Expression(0, "{")
+	}
 	if first.Symbol == "range" {
 		tok := first
 		tok.Append(blankAtPos(t.Pos))
@@ -249,9 +254,17 @@ func forNud(p *parser, t *token) *token {
 
 	t.Append(asStatement(first))
 	p.Advance(";")
-	t.Append(p.Expression(0, "{"))
+	if p.Token.Symbol != ";" {
+		t.Append(p.Expression(0, "{"))
+	} else {
+		t.Append(symAtPos(t.Pos, "~"))
+	}
 	p.Advance(";")
-	t.Append(asStatement(p.Expression(0, "{")))
+	if p.Token.Symbol != "{" {
+		t.Append(asStatement(p.Expression(0, "{")))
+	} else {
+		t.Append(symAtPos(t.Pos, "~"))
+	}
 	t.Append(p.Block("block", "{", "}"))
 	return t
 }
